@@ -69,7 +69,7 @@ def run(ctx):
                     probs.append("bytes handed to the payload decoder differ from the encoder's output: decode(" + fmt_n(das[0])[:600] + ")")
                 res = c.get("result")
                 okres = (isinstance(res, tuple) and res[0] == "agg" and res[1].endswith("UnsealedToken")
-                         and len(res[2]) >= 2 and res[2][1] == ("fld", ("in", "self"), 1)
+                         and len(res[2]) >= 2 and res[2][1] == ("ok", ("call", "<F as Footer>::decode", (("ENCODED", "footer", ("fld", ("in", "self"), 1)),)))
                          and isinstance(res[2][0], tuple) and res[2][0][0] == "ok" and res[2][0][1][0] == "call"
                          and res[2][0][1][1].endswith("Payload>::decode") and res[2][0][1][2] == (want,))
                 if not okres and not probs:
@@ -234,4 +234,43 @@ def run(ctx):
                     seen.add(e["path"])
     for p in sorted(seen):
         lc_err_exits(ctx, p, "C01/lc-err-exits")
+    fromstr_fields(ctx)
+    rsa_width_anchor(ctx)
+
+def fromstr_fields(ctx):
+    """R01.6: a parsed token stores the decoded payload bytes, the decoded footer bytes, and F::decode of those bytes."""
+    from norm import Norm
+    f, rr = run_fromstr(ctx.world, "tokens::SealedToken")
+    if f is None:
+        ctx.add("R01.6", "C01/fromstr-fields/SealedToken", False, "anchor missing: FromStr for SealedToken")
+        return
+    it, results = rr
+    nm = Norm()
+    probs = []
+    oks = [r for r in results if r.kind == "return" and r.okness is not False]
+    if not oks:
+        probs.append("no success path")
+    for r in oks:
+        v = nm.n(it.argval(r.path, it.okv(None, r.path, r.ret)))
+        if not (isinstance(v, tuple) and v[0] == "agg" and v[1].endswith("SealedToken") and len(v[2]) >= 3):
+            probs.append("result is not a SealedToken aggregate: " + fmt_n(v)[:200])
+            continue
+        payload, ef, footer = v[2][0], v[2][1], v[2][2]
+        def is_decoded(x):
+            return "base64::decode_vec" in repr(x)
+        if not is_decoded(payload):
+            probs.append("payload field is not the base64 decoding of the first segment: " + fmt_n(payload)[:200])
+        want = ("ok", ("call", "<F as Footer>::decode", (ef,)))
+        if footer != want:
+            probs.append("footer field is not F::decode(stored footer bytes): " + fmt_n(footer)[:300])
+    ctx.add("R01.6", "C01/fromstr-fields/SealedToken", not probs, "; ".join(sorted(set(probs))), site_of(f))
+
+def rsa_width_anchor(ctx):
+    """R01.3: the 256-byte v1 signature width is anchored by the 2048-bit modulus test in both key decoders."""
+    from keyrules import modulus_guard
+    for kind in ("Secret", "Public"):
+        ok, why, f = modulus_guard(ctx.world, "paseto_v1", kind, 2048)
+        ctx.add("R01.3", f"C01/rsa-width-anchor/v1/{kind.lower()}", ok, why, site_of(f) if f else None)
+FLOORS["R01.6"] = 1
+FLOORS["R01.3"] = 2
 FLOORS["R01.4"] = 3
